@@ -9,14 +9,15 @@ From PV Require Import Num NumR model.Geom proofs.LatticeFacts proofs.OverlapFac
 
 Theorem C02_score_is_fraction :
   forall (st : pstateR) (s : R), packed_score NumR st = Some s -> s = (p_area NumR st * INR
-    (length (p_syms NumR st)) / cell_area NumR (p_cell NumR st))%R /\ check_intersection NumR st
-    = false.
+    (length (p_sites NumR st) * length (p_syms NumR st)) / cell_area NumR (p_cell NumR st))%R /\
+    check_intersection NumR st = false.
 Proof. exact score_is_fraction. Qed.
 Print Assumptions C02_score_is_fraction.
 
 Theorem C02_score_positive :
   forall (st : pstateR) (s : R), packed_score NumR st = Some s -> (0 < p_area NumR st)%R -> 0 <
-    length (p_syms NumR st) -> (0 < cell_area NumR (p_cell NumR st))%R -> (0 < s)%R.
+    length (p_sites NumR st) -> 0 < length (p_syms NumR st) -> (0 < cell_area NumR (p_cell NumR
+    st))%R -> (0 < s)%R.
 Proof. exact score_positive. Qed.
 Print Assumptions C02_score_positive.
 
@@ -65,10 +66,10 @@ Proof. exact circle_overlap_disjoint. Qed.
 Print Assumptions C02_circle_overlap_disjoint.
 
 Theorem C02_packed_score_site_shift :
-  forall (st : pstateR) (n m : Z), Forall int_sym (p_syms NumR st) -> packed_score NumR {|
-    p_syms := p_syms NumR st; p_site := shift_site (p_site NumR st) n m; p_cell := p_cell NumR
-    st; p_shape := p_shape NumR st; p_radius := p_radius NumR st; p_area := p_area NumR st |} =
-    packed_score NumR st.
+  forall (st : pstateR) (ss' : list (site NumR)), Forall int_sym (p_syms NumR st) -> shifted
+    (p_sites NumR st) ss' -> packed_score NumR {| p_syms := p_syms NumR st; p_sites := ss';
+    p_cell := p_cell NumR st; p_shape := p_shape NumR st; p_radius := p_radius NumR st; p_area
+    := p_area NumR st |} = packed_score NumR st.
 Proof. exact packed_score_site_shift. Qed.
 Print Assumptions C02_packed_score_site_shift.
 
@@ -115,4 +116,10 @@ Theorem C02_circle_overlap_is_two_segments :
     /\ - dr NumR b <= d2 <= dr NumR b.
 Proof. exact circle_overlap_is_two_segments. Qed.
 Print Assumptions C02_circle_overlap_is_two_segments.
+
+
+Theorem C02_copies_total_shapes :
+  forall st : pstateR, total_shapes NumR st = Z.of_nat (copies st).
+Proof. exact copies_total_shapes. Qed.
+Print Assumptions C02_copies_total_shapes.
 
